@@ -16,6 +16,7 @@ import (
 	"github.com/makiuchi-d/gozxing"
 	"github.com/makiuchi-d/gozxing/aztec"
 	"github.com/makiuchi-d/gozxing/datamatrix"
+	dmencoder "github.com/makiuchi-d/gozxing/datamatrix/encoder"
 	"github.com/makiuchi-d/gozxing/oned"
 	"github.com/makiuchi-d/gozxing/qrcode"
 )
@@ -39,6 +40,11 @@ type Job struct {
 	Photo   int // >= 0: index into Photos (Aztec decode), Format/Content unused
 	Addon   string // UPC/EAN only: digits of an EAN-2 / EAN-5 add-on drawn to the right of the symbol ("" = none)
 	Multi   bool   // read with the worker's multi-format reader instead of the symbology's own reader
+	// ---- wp c18gen ----
+	Shape    int    // Data Matrix only: 0 = no hint, 1 = FORCE_SQUARE, 2 = FORCE_RECTANGLE (square and rectangular symbols of equal height share size-keyed look-ups)
+	AztecSym int    // > 0: render AztecSymbols[AztecSym-1] with NDamage data modules and one mode-message module flipped, decode with the worker's Aztec reader
+	NDamage  int    // number of flipped data modules (every one is a Reed-Solomon error the decoder has to correct)
+	Damage   uint64 // seed of the flipped positions
 }
 
 // ---- EAN-2 / EAN-5 add-on symbols (ISO/IEC 15420, 4.3): start 1011, digits in set A (L) or B (G), separated by 01 ----
@@ -229,7 +235,8 @@ func LoadPhotos(repo string) int {
 // Jobs derives n jobs from the seed, cycling through every symbology.
 func Jobs(seed uint64, n int) []Job {
 	r := &rng{seed*0x9E3779B97F4A7C15 + 77}
-	jobs := make([]Job, 0, n)
+	jobs := make([]Job, 0, n+len(AztecSymbols)+12)
+	jobs = append(jobs, SequenceJobs(r)...)
 	for i := 0; i < n; i++ {
 		k := i % (len(Formats) + 1)
 		if k == len(Formats) {
@@ -341,11 +348,29 @@ func (w *Worker) Run(j Job) (out string) {
 		}
 		return "aztec:" + res.GetText()
 	}
+	if j.AztecSym > 0 {
+		bmp, err := gozxing.NewBinaryBitmapFromImage(RenderAztec(AztecSymbols[j.AztecSym-1], j.NDamage, j.Damage, j.Scale))
+		if err != nil {
+			return "bitmap-error"
+		}
+		res, err := w.aztec.Decode(bmp, nil)
+		if err != nil {
+			return fmt.Sprintf("aztecsym %d damage=%d/%x err:%s", j.AztecSym, j.NDamage, j.Damage, err.Error())
+		}
+		return fmt.Sprintf("aztecsym %d damage=%d/%x text=%q meta=[%s]", j.AztecSym, j.NDamage, j.Damage, res.GetText(), metaString(res))
+	}
 	height := 0
 	if j.Format != gozxing.BarcodeFormat_QR_CODE && j.Format != gozxing.BarcodeFormat_DATA_MATRIX {
 		height = 12
 	}
-	m, err := w.writers[j.Format].Encode(j.Content, j.Format, 0, height, nil)
+	var hints map[gozxing.EncodeHintType]interface{}
+	switch j.Shape {
+	case 1:
+		hints = map[gozxing.EncodeHintType]interface{}{gozxing.EncodeHintType_DATA_MATRIX_SHAPE: dmencoder.SymbolShapeHint_FORCE_SQUARE}
+	case 2:
+		hints = map[gozxing.EncodeHintType]interface{}{gozxing.EncodeHintType_DATA_MATRIX_SHAPE: dmencoder.SymbolShapeHint_FORCE_RECTANGLE}
+	}
+	m, err := w.writers[j.Format].Encode(j.Content, j.Format, 0, height, hints)
 	if err != nil {
 		return "write-err:" + err.Error()
 	}
@@ -362,8 +387,15 @@ func (w *Worker) Run(j Job) (out string) {
 		rd = w.multi1D
 	}
 	res, err := rd.Decode(bmp, nil)
+	via := ""
+	if err != nil && j.Format == gozxing.BarcodeFormat_DATA_MATRIX {
+		// the detector gives up on many small clean symbols; the pure-barcode path still runs parser, version look-up and
+		// Reed-Solomon decoder on them (a deterministic function of the job, like everything else here)
+		via = " detect-err:" + err.Error() + " pure:"
+		res, err = rd.Decode(bmp, map[gozxing.DecodeHintType]interface{}{gozxing.DecodeHintType_PURE_BARCODE: true})
+	}
 	if err != nil {
-		return fmt.Sprintf("%v m=%x read-err:%s", j.Format, hashMatrix(m), err.Error())
+		return fmt.Sprintf("%v %dx%d%s m=%x read-err:%s", j.Format, m.GetWidth(), m.GetHeight(), via, hashMatrix(m), err.Error())
 	}
 	pts := ""
 	for _, p := range res.GetResultPoints() {
@@ -371,7 +403,7 @@ func (w *Worker) Run(j Job) (out string) {
 			pts += fmt.Sprintf("(%.1f,%.1f)", p.GetX(), p.GetY())
 		}
 	}
-	return fmt.Sprintf("%v m=%x text=%q fmt=%v meta=[%s] pts=%s", j.Format, hashMatrix(m), res.GetText(), res.GetBarcodeFormat(), metaString(res), pts)
+	return fmt.Sprintf("%v %dx%d%s m=%x text=%q fmt=%v meta=[%s] pts=%s", j.Format, m.GetWidth(), m.GetHeight(), via, hashMatrix(m), res.GetText(), res.GetBarcodeFormat(), metaString(res), pts)
 }
 
 // Sequential is the reference: one worker, one goroutine.
